@@ -177,6 +177,17 @@ def register(reg):
     reg.object_invariant("Transfer", "transfer-changes-engine",
                          lambda c, o: B(c.attr(o, "destination").z != eng(c, c.attr(o, "target").z)))
 
+    # a partial join is only built by Join.partial (which checks it) and by PartialJoin._begin_apply (which resolves the
+    # join columns against the fixed relation): its explicit join columns are columns of the fixed relation
+    reg.object_invariant("PartialJoin", "explicit-join-columns-are-columns-of-the-fixed-relation",
+                         lambda c, o: B(z3.IsSubset(A(c, "Join", "min_columns")(c.attr(o, "binary").z), cols(c, c.attr(o, "fixed").z))))
+    k = reg.contract("_operations._join:Join.partial", properties=("C14", "C20"))
+    k.ens("a-partial-join-of-this-join-with-the-fixed-relation",
+          lambda c: B(z3.And(smt.typ(c.result.z) == cid(c, "PartialJoin"), A(c, "PartialJoin", "binary")(c.result.z) == c.self.z,
+                             A(c, "PartialJoin", "fixed")(c.result.z) == c.fix.z, A(c, "PartialJoin", "fixed_is_lhs")(c.result.z) == c.is_lhs.z)))
+    k.must("missing-join-columns-rejected", "ColumnError", lambda c: B(z3.Not(z3.IsSubset(A(c, "Join", "min_columns")(c.self.z), cols(c, c.fix.z)))))
+    k.raises("ColumnError", lambda c: B(z3.Not(z3.IsSubset(A(c, "Join", "min_columns")(c.self.z), cols(c, c.fix.z)))))
+
     # ------------------------------------------------------------------ _finish_apply (C05 / C14)
     def fin_post_rows(c):
         return B(V.rows(c.result.z) == V.sem(c.self.z, V.rows(c.target.z)))
@@ -343,6 +354,11 @@ def register_engines(reg):
     k.ens("only-for-leaves-and-materializations-behind-same-engine-markers",
           lambda c: B(z3.Implies(c.result.z, z3.Or(mat_or_leaf(c, c.target.z), is_marker(c, c.target.z)))))
 
+    simp = lambda c: c.ex.pure_symbol("_materialization:Materialization.simplify", [smt.Ref], smt.BoolS)  # noqa: E731
+    k.ens("exactly-leaves-and-materializations-possibly-behind-same-engine-markers",
+          lambda c: B(c.result.z == z3.Or(mat_or_leaf(c, c.target.z),
+                                          z3.And(is_marker(c, c.target.z), eng(c, c.target.z) == eng(c, A(c, "MarkerRelation", "target")(c.target.z)),
+                                                 simp(c)(A(c, "MarkerRelation", "target")(c.target.z))))))
     k.ens("markers-are-looked-through-only-within-one-engine",
           lambda c: B(z3.Implies(z3.And(c.result.z, is_marker(c, c.target.z), smt.typ(c.target.z) != cid(c, "Materialization")),
                                  eng(c, c.target.z) == eng(c, A(c, "MarkerRelation", "target")(c.target.z)))))
